@@ -494,6 +494,29 @@ class World:
             self.log(a, "caught", self.meta(err))
             await self.run_ops(a, op.get("handler", ()))
 
+    async def op_finally(self, a, op):
+        """try: body / finally: handler. A forceful close may only run the non-suspending
+        `sync` ops; any other exit runs the (possibly suspending) `handler` ops first."""
+        try:
+            await self.run_ops(a, op["body"])
+        except GeneratorExit:
+            self.log(a, "cleanup+", ("GeneratorExit",))
+            for sub in op.get("sync", ()):
+                await self.ops[sub["op"]](a, sub)        # these ops never suspend
+            self.log(a, "cleanup-")
+            raise
+        except BaseException as err:
+            self.log(a, "cleanup+", self.meta(err))
+            await self.run_ops(a, op.get("handler", ()))
+            for sub in op.get("sync", ()):
+                await self.ops[sub["op"]](a, sub)
+            self.log(a, "cleanup-")
+            raise
+        else:
+            await self.run_ops(a, op.get("handler", ()))
+            for sub in op.get("sync", ()):
+                await self.ops[sub["op"]](a, sub)
+
     # -- flags / tracked / conditions
     async def op_flag_set(self, a, op):
         flag = self.res[op["on"]]
